@@ -86,6 +86,26 @@ CHECKS["C17"] = dict(
    text="Graph a,b,c with e1 a+ b+, e2 b+ c- in six variants (parallel edge, cycle edge, both, complement-form edges). Every O item list of length <= 3 over {a,b,c,e1,e2 with both orientations} on all variants, definitions first and group first; every list containing a nested o1 x definitions of o1 (thorough: all 110 lists of length <= 2); every U list of length <= 3 over {a,b,e1,g1,o1,u0} x nested definitions; every split of a list into two (and three) lines sharing the identifier x 8 tag modes (incl. contradictory and contradictory-with-zero) x both arrival orders x every placement among the other lines. Clauses: invalid-walk, accepts-invalid-items, rejects-valid-path, wrong-walk, segments-edges-differ, induced-set, merge-items/tags/records, merge-accepts-contradiction, merge-refused-state-changed, validate on unresolved items.",
    note="An E line is read as an adjacency of two oriented segments (either order); where the specification is silent (segment that is no end of its neighbouring edge, gap in a set, nested path without a defined walk) only the validity of a returned walk is judged; Gfa.validate() is not asked to detect non-contiguous paths (the suite's valid_path.gfa2 forbids it).",
    ref="3 C17", engine="I+S")
+CHECKS["C03"] = dict(
+   technique="all n! arrival orders of every enumerated document executed on the real code, canonical observations compared across orders and with an order-free text model (gfamc/ref/closure.py)",
+   text="Every reference-closed subset of the G1 and G2 universes of <= 5 lines (quick) / <= 6 (thorough) whose path steps are supported by exactly one link, plus ten 6-7 line seeds (one per referencing record family, and two in which a record mentions an identifier twice); all n! orders through Gfa(list) (and incremental add_line + process_line_queue, and from_file). Across orders: same outcome, version, names, records (link == complement, canonicalised together with its targets), reference targets, back-reference multisets, path steps (link modulo complement + direction of traversal); no placeholder left for a defined identifier; validate() passes; every order equals the model's prediction; a fixed slice re-run under PYTHONHASHSEED 1 and 2.",
+   note="Record order and order inside back-reference lists are free; documents with a `*`-versus-CIGAR parallel link or an ambiguous path step are skipped (left open).",
+   ref="3 C03", engine="S")
+CHECKS["C13"] = dict(
+   technique="all arrival orders of every multiset of line kinds x version parameter x dialect x entry point on the real code, outcome compared with the set-intersection model gfamc/ref/versions.py",
+   text="16 line kinds (H with VN 1.0 / 2.0 / none / 3.0, S in GFA1 and GFA2 syntax carrying tags of every datatype, L, C, P, E, F, G, O, U, custom, comment); every multiset of <= 4 kinds (quick; thorough <= 5) instantiated consistently; every order; version in {None, gfa1, gfa2} x dialect {standard, rgfa} x vlevel x entry {Gfa(list), incremental + process_line_queue, from_file, Line objects}. VersionError in every order iff the intersection of allowed versions (content, parameter, dialect) is empty; a document valid in one version is accepted as that version in every order; same outcome for all orders; every input line occurs exactly once in g.lines; a decided version never changes.",
+   note="For version-neutral documents only order independence is demanded; size-4 (quick) and size-5 (thorough) multisets use the stated subset of configurations.",
+   ref="3 C13", engine="S")
+CHECKS["C10"] = dict(
+   technique="exhaustive (state, query), (query, query) enumeration on the real code: deep observation before/after, repeated answers, answers against a fresh replica",
+   text="States: every state of a depth-2 (quick) / depth-3 (thorough) history BFS on G1/G2, one document per record template x tag set covering all datatypes, multi-valued headers, dangling-reference documents, vlevel-0 documents with non-canonical spellings; stand-alone alignment/position/oriented values (all CIGARs of <= 2/3 ops). Query menu of 100-750 read-only calls per state (every Gfa collection/counter/finder/topology query, every line-level read, comparison, diff, clone, validate, conversion string, every per-field read, every stored-value operation). Clauses: frame (deep observation unchanged), twice (same answer), argument (arguments unchanged), sequence and pair (answer of q2 after q1 equals q2 on a fresh replica).",
+   note="Excluded as documented mutators: to_gfa2 of an unnamed connected L/C (assigns an ID) and unused_name(). Exceptions are outcomes (C07 owns foreign ones). One known finding (level-0 lazy decoding re-spells a field on first read).",
+   ref="3 C10", engine="H+I")
+CHECKS["C19"] = dict(
+   technique="exhaustive enumeration of line templates x tag sets x contexts x in-place edits on the real code; object-graph walk for shared mutable state",
+   text="31 line templates (every record type of both versions, every positional datatype) x tag sets over nine tag values (all datatypes, nested JSON) x contexts (stand-alone, read, connected, connected with dangling references, multi-valued headers) x vlevels: clone.gfa is None, str(clone) equals the original's text, clone == original both ways, no Line/Gfa reachable from the clone, no mutable object shared (walk of both instances); then every (field, in-place edit) pair - list/CIGAR/Trace/NumericArray/FieldArray append, item assignment, pop, clear; dict edits; OrientedLine orient/line/invert; CIGAR operation code/length; set/delete/set_datatype - applied to the clone and, separately, to the original, to depth 2 (quick) / 3 (thorough).",
+   note="LastPos and Placeholder objects are treated as immutable values.",
+   ref="3 C19", engine="I")
 NOT_BUILT = {}
 
 def main():
